@@ -17,7 +17,8 @@
 From Coq Require Import List Arith Bool ZArith.
 From LV Require Import Common.Cases Align.DP Msa.Profile Msa.Merge Msa.Refine Msa.MsaSpec Msa.MsaExec
   Msa.ProfileProofs Msa.MergeProofs Msa.UpdateProofs Msa.RefineProofs Msa.MsaExecProofs Msa.Examples
-  Msa.Alignments Msa.AlignmentsProofs Msa.Totality Msa.CalignOracle Msa.TreeOracle.
+  Msa.Alignments Msa.AlignmentsProofs Msa.Totality Msa.CalignOracle Msa.TreeOracle
+  Msa.AlignHistory Msa.AlignHistoryProofs.
 Import ListNotations.
 Local Open Scope nat_scope.
 
@@ -158,6 +159,39 @@ Theorem C04_alignments_okb_spec :
 Proof. exact alignments_okb_spec. Qed.
 Print Assumptions C04_alignments_okb_spec.
 
+(* Alignments with SEVERAL cognate-id columns (the reference column is a parameter of every
+   step): one add_alignments(ref, override) / align(ref) call keeps "every entry of the alignment
+   column de-gaps to its word's segments" and the registry of sets consistent, and right after
+   align(r) the column satisfies the Alignments clause for the partition of column r (sets of
+   THAT column share one length, every word outside a multi-member set of THAT column equals
+   its segments - also when the column held stale gaps or the rows of another ref before) *)
+Theorem C04_alignments_step_inv :
+  forall (ws : list mword) (c : acall) (st st' : astate),
+    mwords_ok ws -> acall_ok c -> ainv ws st -> alm_step ws c st = Some st' ->
+    ainv ws st' /\
+    match c with
+    | Align r _ => column_ok (view r ws) (a_col st')
+    | AddAlignments _ _ => a_col st' = a_col st
+    end.
+Proof. exact alm_step_inv. Qed.
+Print Assumptions C04_alignments_step_inv.
+
+(* ... hence after ANY history of such calls over any refs in any order that ends with align(r),
+   starting from a freshly constructed object whose alignment column de-gaps to the segments *)
+Theorem C04_alignments_history_inv :
+  forall (ws : list mword) (col0 : list (nat * erow)) (cs : list acall) (r : nat)
+         (MSA : list (list Z) -> option (list erow)) (st : astate),
+    mwords_ok ws -> col_inv ws col0 -> Forall acall_ok cs -> msa_contract MSA ->
+    alm_history ws (cs ++ [Align r MSA]) {| a_col := col0; a_reg := [] |} = Some st ->
+    column_ok (view r ws) (a_col st) /\ col_inv ws (a_col st).
+Proof. exact alm_history_column_ok. Qed.
+Print Assumptions C04_alignments_history_inv.
+
+Theorem C04_losslessb_spec :
+  forall (ws : list mword) (col : list (nat * erow)), losslessb ws col = true <-> col_inv ws col.
+Proof. exact losslessb_spec. Qed.
+Print Assumptions C04_losslessb_spec.
+
 (* ------------------------------------------------------------------ *)
 (* non-vacuity: an oracle that meets the contract for every input, and an object *)
 Example ex_oracle : oracle_valid (@block_pa num).
@@ -185,6 +219,38 @@ Example ex_history_returns :
                 Clusters nat [[0; 1]; [2]] (ex_env CheckNone ex_score)] ex_state = Some st
              /\ st <> ex_state.
 Proof. eexists. vm_compute. split; [reflexivity|discriminate]. Qed.
+
+(* two cognate codings that partition four words differently, a column with stale gaps, and a
+   per-set aligner that meets the contract for every input *)
+Definition ex_words : list mword :=
+  [ {| mw_id := 7; mw_doc := 0; mw_cogs := [1; 1]; mw_segs := [1; 2; 3]%Z |};
+    {| mw_id := 3; mw_doc := 1; mw_cogs := [1; 1]; mw_segs := [1; 2]%Z |};
+    {| mw_id := 9; mw_doc := 2; mw_cogs := [2; 1]; mw_segs := [4; 2]%Z |};
+    {| mw_id := 4; mw_doc := 0; mw_cogs := [1; 3]; mw_segs := [5]%Z |} ].
+Definition ex_col0 : list (nat * erow) :=
+  [ (7%nat, [Some 1; Some 2; Some 3; None]); (3%nat, [Some 1; Some 2; None; None]);
+    (9%nat, [Some 4; Some 2; None; None]); (4%nat, [None; Some 5]) ]%Z.
+
+Example ex_msa_contract : msa_contract pad_msa.
+Proof. exact pad_msa_contract. Qed.
+
+Example ex_history_two_refs :
+  mwords_ok ex_words /\ col_inv ex_words ex_col0 /\
+  exists st, alm_history ex_words ([AddAlignments 0 false; Align 0 pad_msa; AddAlignments 1 false] ++ [Align 1 pad_msa])
+                         {| a_col := ex_col0; a_reg := [] |} = Some st
+             /\ a_col st = [ (7%nat, [Some 1; Some 2; Some 3]); (3%nat, [Some 1; Some 2; None]);
+                             (9%nat, [Some 4; Some 2; None]); (4%nat, [Some 5]) ]%Z.
+Proof.
+  split; [|split].
+  - unfold mwords_ok. cbn. repeat constructor; cbn; intuition discriminate.
+  - apply losslessb_spec. vm_compute. reflexivity.
+  - eexists. vm_compute. split; reflexivity.
+Qed.
+
+(* align on a ref that was never registered raises (KeyError) *)
+Example ex_unregistered_ref_raises :
+  alm_step ex_words (Align 1 pad_msa) {| a_col := ex_col0; a_reg := [] |} = None.
+Proof. reflexivity. Qed.
 
 (* the guards are real: plain-token mode + a refinement call that reaches the loop raises *)
 Example ex_plain_mode_raises :
